@@ -452,11 +452,31 @@ def run_dag(ctx, dd, rng, check_sep=False):
                              f"latent projection and the ADMG read off the simplified DAG; {dd}", case={"dag": dd})
 
 
-def run_roundtrip(ctx, gd):
+def colliding_names(gd, rng):
+    """Rename one or two nodes to the very names the conversion would make up for its latents under the options chosen:
+    <prefix><start>, <prefix><start+1> (negative starts and signs included).  -> (graph, options)"""
+    prefix = rng.choice([None, None, "L", "u_", "V", "lat-"])
+    start = rng.choice([0, 0, 1, 7, -1, -2, 10])
+    p_ = prefix if prefix is not None else "u_"
+    victims = rng.sample(gd["nodes"], min(len(gd["nodes"]), rng.choice([1, 2])))
+    ren = {v: f"{p_}{start + i}" for i, v in enumerate(victims)}
+    ren = {k_: v_ for k_, v_ in ren.items() if v_ not in gd["nodes"]}
+    m = lambda n: ren.get(n, n)  # noqa: E731
+    gd2 = {"nodes": [m(n) for n in gd["nodes"]], "di": [[m(a), m(b)] for a, b in gd["di"]],
+           "bi": [[m(a), m(b)] for a, b in gd["bi"]], "hostile": "names-collide-with-latent-options"}
+    opts = {}
+    if prefix is not None:
+        opts["prefix"] = prefix
+    if start != 0 or rng.random() < 0.3:
+        opts["start"] = start
+    return gd2, opts
+
+
+def run_roundtrip(ctx, gd, opts=None):
     from y0.graph import NxMixedGraph
 
     g = gg.to_nx(gd)
-    kernel.LOG.reset_case({"graph": gd})
+    kernel.LOG.reset_case({"graph": gd, **({"opts": opts} if opts is not None else {})})
     ref = RG.from_nx(g)
     # the options of the conversion: latent-name prefix (also one that clashes with the node names), first number, tag
     k = sum(map(ord, gg.key(gd)))
@@ -466,6 +486,8 @@ def run_roundtrip(ctx, gd):
     if k % 5 in (1, 2, 3):
         kw["start"] = (1, 7, -1)[k % 5 - 1] if k % 2 else (1, 7, -2)[k % 5 - 1]
     tag = (None, "latent_flag")[k // 7 % 2]
+    if opts is not None:
+        kw = dict(opts)
     if tag:
         kw["tag"] = tag
     kernel.count("C16:roundtrip-options:" + ",".join(sorted(kw)) if kw else "C16:roundtrip-options:defaults")
@@ -488,7 +510,7 @@ def run_roundtrip(ctx, gd):
     if got != ref or not (back == g):
         mech = "roundtrip.edgeless-node-lost" if (got.D == ref.D and got.B == ref.B and got.V < ref.V) else None
         kernel.violation(PROP, "roundtrip", f"from_latent_variable_dag(to_latent_variable_dag(G)) = {_fmt_rg(got)} for G = "
-                         f"{_fmt_rg(ref)}", case={"graph": gd}, mech=mech)
+                         f"{_fmt_rg(ref)}", case={"graph": gd, **({"opts": opts} if opts is not None else {})}, mech=mech)
     touched = {x for e in gd["di"] + gd["bi"] for x in e}
     ctx.case("rt|" + gg.key(gd), bool(gd["bi"]) or len(touched) < len(gd["nodes"]),
              sample={"graph": gd, "roundtrip_equal": got == ref})
@@ -524,10 +546,19 @@ def run_taheri(ctx, dd, rng):
     from y0.dsl import Variable
 
     g = nx.DiGraph()
-    for n in dd["nodes"]:
-        g.add_node(Variable(n), **{TAG: False})
+    # the DAG may come with latent marks from an earlier use (set_latent, hand-set data): the design enumerates its own
+    # configurations and must not be influenced by them
+    pre = sum(map(ord, "".join(dd["nodes"]) + "".join(map("".join, dd["edges"])))) % 3
+    for i_, n in enumerate(dd["nodes"]):
+        if pre == 0:
+            g.add_node(Variable(n), **{TAG: False})
+        elif pre == 1:
+            g.add_node(Variable(n), **{TAG: bool(i_ % 2)})
+        else:
+            g.add_node(Variable(n))
     for u, v in dd["edges"]:
         g.add_edge(Variable(u), Variable(v))
+    kernel.count(f"C16:taheri-dag-premarked:{('all-false', 'some-true', 'unmarked')[pre]}")
     if len(dd["nodes"]) < 3:
         return
     a, b = rng.sample(sorted(dd["nodes"]), 2)
@@ -609,6 +640,9 @@ def run_shard(ctx):
     for i in range(ctx.share({"quick": 1500, "thorough": 40000}[ctx.tier])):
         gd = gg.random_admg(rng, rng.randint(3, 7))
         run_roundtrip(ctx, gd)
+        if i % 4 == 1 and gd["bi"]:
+            gd2_, opts_ = colliding_names(gd, rng)
+            run_roundtrip(ctx, gd2_, opts=opts_)
         if i % 3 == 0:
             run_evans(ctx, gd, rng)
     for i in range(ctx.share({"quick": 15000, "thorough": 120000}[ctx.tier])):
@@ -638,7 +672,7 @@ def run_shard(ctx):
         except Exception as e:  # noqa: BLE001
             kernel.violation(PROP, "total", f"{rule} raised {type(e).__name__}: {e} on {dd}", case={"dag": dd, "rule": rule})
         ctx.case(f"rule|{rule}|{dag_key(dd)}", any(v in dd["latent"] for _, v in dd["edges"]))
-    for i in range(ctx.share({"quick": 60, "thorough": 1500}[ctx.tier])):
+    for i in range(ctx.share({"quick": 400, "thorough": 3000}[ctx.tier])):
         dd = random_lvdag(rng, rng.randint(3, 5))
         run_taheri(ctx, dd, rng)
     for i in range(ctx.share({"quick": 800, "thorough": 6000}[ctx.tier])):
@@ -677,7 +711,7 @@ def replay(case):
         gd = case["graph"]
         if isinstance(gd.get("di", [None])[0] if gd.get("di") else None, str):
             gd = {"nodes": gd["nodes"], "di": [e.split("->") for e in gd["di"]], "bi": [e.split("<->") for e in gd["bi"]]}
-        run_roundtrip(_C(), gd)
+        run_roundtrip(_C(), gd, opts=case.get("opts"))
 
 
 def install_for_suite():
